@@ -150,6 +150,8 @@ def run_fault_variant(case):  # noqa: C901
                     counters[f'fault:{ev["kind"]}:{errname}'] += 1
                     outcome = 'raised' if res['raised'] else 'completed'
                     counters[f'outcome:{outcome}'] += 1
+                    if res.get('followup'):
+                        counters['same-handle-followups:' + res['followup'].split(' ')[0]] += 1
                     if res['raised']:
                         counters[f'raised:{res["raised_type"]}'] += 1
                     where = f'{ev["brief"]} failing with {errname}'
